@@ -322,6 +322,53 @@ def round3_rules(res, fx):
     res.ob('INDEX-TO-ALL', f.where(), 'AfterMessageReceivedFromGateway pushes the subscription Messages unconditionally', bool(calls) and bad is None, function=f.q, key='INDEX-TO-ALL|%s|push' % f.q,
            message='AfterMessageReceivedFromGateway pushes the buffered index/data updates only under `%s`: inside a batch, a snapshot requested by a later command is sent before the updates of the '
                    'earlier commands, and replaying the log then applies them on top of a snapshot that already contains them' % (bad.text(50) if bad is not None and bad is not True else ''))
+    # ENTRY-ONCE: "each at most once": an entry is added only for a child that cannot have one yet
+    res.rule('ENTRY-ONCE', 'every statement that adds an entry to an ordered index (Queue insertion into _orderedIndex; a call of DataNode::InsertIndexEntryAt, whose documented precondition is that the child '
+                           'is not in the index) adds a node created in the same function, or is preceded on every path by RemoveIndexEntry() for that child on the same node (or by a test of the index for it)', floor=3)
+    n_eo = 0
+    for g in sorted((g for g in fx.funcs.values() if g.full and re.search(r'^muscle::(DataNode|StorageReflectSession)::', g.q)), key=lambda g: (g.file, g.line)):
+        for c in g.walk():
+            if not c.is_call():
+                continue
+            qn = c.get('q') or ''
+            prim = c['k'] == 'CXXMemberCallExpr' and qn.split('::')[-1] in ('InsertItemAt', 'AddTail', 'AddHead', 'InsertItemsAt', 'AddTailMulti', 'AddHeadMulti') and 'Queue' in qn \
+                and c.receiver() is not None and any(y.get('n') == '_orderedIndex' for y in c.receiver().walk()) and c.args()
+            api = qn.endswith('DataNode::InsertIndexEntryAt')
+            if not (prim or api):
+                continue
+            if prim and g.q.endswith('DataNode::InsertIndexEntryAt'):
+                continue          # the primitive behind the public call: its callers carry the obligation (they are the `api` sites)
+            n_eo += 1
+            recv = c.receiver() if api else None
+            rk = A.render_key(A.strip_casts(recv)) if recv is not None else 'this'
+            # (a) the node that is added was created here
+            fresh = False
+            if prim:
+                for a in c.args():
+                    a0 = A.strip_casts(a)
+                    if a0['k'] == 'DeclRefExpr' and a0.get('d') is not None:
+                        for v in g.walk():
+                            if v['k'] == 'VarDecl' and v.get('d') == a0['d'] and v['ch'] and any(x.is_call() and (x.get('q') or '').endswith('::GetNewDataNode') for x in v['ch'][0].walk()):
+                                fresh = True
+            # (b) the old entry (if any) was removed first, on the same node
+            rem = []
+            for r_ in g.walk():
+                if r_.is_call() and re.search(r'DataNode::(RemoveIndexEntry|RemoveIndexEntryAt)$', r_.get('q') or ''):
+                    rr = r_.receiver() if r_['k'] == 'CXXMemberCallExpr' else None
+                    rrk = A.render_key(A.strip_casts(rr)) if rr is not None and A.strip_casts(rr)['k'] != 'CXXThisExpr' else 'this'
+                    if rrk == rk:
+                        rem.append(r_)
+            removed = bool(rem) and P.must_precede(g, rem, c)
+            # (c) a dominating test that looks the child up in the index
+            tested = any(any(x.is_call() and re.search(r'::(IndexOf|LastIndexOf|Contains|HasIndexEntry|GetIndexOf\w*)$', x.get('q') or '') for x in cn.walk()) for (cn, t) in G.atoms_at(g, c))
+            ok = fresh or removed or tested
+            res.ob('ENTRY-ONCE', g.where(c), '%s line %s: the child gets an index entry only where it cannot have one already' % (g.q.split('::')[-1], c.get('l')), ok, function=g.q,
+                   how='fresh node' if fresh else 'RemoveIndexEntry first' if removed else 'index tested' if tested else None, key='ENTRY-ONCE|%s|%s' % (g.q, qn.split('::')[-1]),
+                   message='%s adds an index entry with %s() for a child that may already have one (no RemoveIndexEntry() for it on the same node before, no test of the index, and the node is not new): '
+                           'the index then lists the child twice — every later snapshot and replica carries the duplicate, and a removal of the child takes out only one of the two entries, leaving an '
+                           'entry for a node that no longer exists' % (g.q, qn.split('::')[-1]))
+    if n_eo < 3:
+        raise AnalysisBroken('ENTRY-ONCE: only %d index insertion sites found' % n_eo)
     # FULL-SCAN: a search of the index by node name looks at every position
     res.rule('FULL-SCAN', 'in DataNode.cpp a loop that compares (*_orderedIndex)[i]()->GetNodeName() with a name covers every index: descending from the last valid index while i >= 0, or ascending '
                           'from 0 while i < count', floor=3)
